@@ -194,7 +194,9 @@ func newC13pki(rng *rand.Rand) *c13pki {
 func (p *c13pki) leaf(extra []pkix.Extension, crldp bool) (*x509.Certificate, error) {
 	p.serial++
 	tmpl := &x509.Certificate{
-		SerialNumber: big.NewInt(p.serial), Subject: pkix.Name{CommonName: "Intel SGX PCK Certificate", Organization: []string{"Intel Corporation"}, Country: []string{"US"}},
+		// serial numbers are per issuer and re-issues happen: different certificates share the few serials used here — what is
+		// extracted is what THIS certificate encodes, whatever was extracted before from another one with the same serial
+		SerialNumber: big.NewInt(1 + p.serial%5), Subject: pkix.Name{CommonName: "Intel SGX PCK Certificate", Organization: []string{"Intel Corporation"}, Country: []string{"US"}},
 		NotBefore: c13nb, NotAfter: c13nb.AddDate(7, 0, 0), KeyUsage: x509.KeyUsageDigitalSignature, BasicConstraintsValid: true, IsCA: false,
 		SignatureAlgorithm: x509.ECDSAWithSHA256, SubjectKeyId: c13ski(p.leafKey), ExtraExtensions: extra,
 	}
